@@ -329,9 +329,11 @@ func DefaultExternals() map[string]externalFn {
 			buf, _ := st[1].([]value)
 			return mkString(buf)
 		},
-		"strings.Clone":   func(fr *frame, args []value) value { return args[0] },
-		"strings.ToLower": func(fr *frame, args []value) value { return fr.asciiCase(args[0], false) },
-		"strings.ToUpper": func(fr *frame, args []value) value { return fr.asciiCase(args[0], true) },
+		"strings.Clone":              func(fr *frame, args []value) value { return args[0] },
+		"internal/stringslite.Clone": func(fr *frame, args []value) value { return args[0] },
+		"strconv.cloneString":        func(fr *frame, args []value) value { return args[0] },
+		"strings.ToLower":            func(fr *frame, args []value) value { return fr.asciiCase(args[0], false) },
+		"strings.ToUpper":            func(fr *frame, args []value) value { return fr.asciiCase(args[0], true) },
 		"(*bytes.Buffer).String": func(fr *frame, args []value) value {
 			p := args[0].(*value)
 			if p == nil {
